@@ -14,6 +14,7 @@ DECIDED += "; R1 compares the very read that produced the returned port with the
 DECIDED += "; R5 names never receive the address of a host registered by literal address; R6 handles identify their own incarnation of a stream-table entry (recorded finding D33)"
 DECIDED += '; R1 also: the in-use predicates depend on port numbers only (a port bound at any local address is in use)'
 DECIDED += '; R5 also: every address the name allocator returns passed the taken test; R1 also: the port scan makes one attempt per port of the inclusive range'
+DECIDED += '; R5 also: Dns::reserve records the address on every path'
 ASSUMPTIONS = ["IndexMap::entry Occupied/Vacant semantics"]
 
 
